@@ -15,7 +15,8 @@ for id in $IDS; do
   if [ -n "$st" ]; then echo "$id SKIPPED ($st)" >> /tmp/recheck-seeded.log; continue; fi
   git -C $R checkout -q -- . ; git -C $R clean -fdq
   demo=$(python3 -c "import json;print(json.load(open('$d/meta.json'))['demo_file'])")
-  mkdir -p $R/$(dirname $demo); cp $d/zz_mutant_demo_test.go.txt $R/$demo
+  src=$d/zz_mutant_demo_test.go.txt; [ -f $src ] || src=$(ls $d/*zz_mutant_demo_test.go.txt | head -1)
+  mkdir -p $R/$(dirname $demo); cp $src $R/$demo
   ddir=$(dirname $demo)
   race=""; grep -qi "race" $d/meta.json && grep -q "demo_note" $d/meta.json && race="-race"
   pre=$(cd $R/$ddir && timeout 300 go test $race -vet=off -count=1 -run 'ZZ|Mutant' . 2>&1 | tail -1)
